@@ -143,6 +143,9 @@ def module_text(ir, k, nstmts=None):
     out.append("fn clock() { return %d; }" % (5000 + k))
     out.append("var Range = %d;" % (6000 + k))
     out.append("fn shadowed() { return (clock(), Range); }")
+    # module globals that hold a bound native method / a bound method / a class: `m.name(...)` must call them like any other value
+    out.append("var store = [0]; var pushit = store.push;")
+    out.append("#[constructor(new)] class Acc { fn add(self, x) { self.n = self.n + x; return self.n; } } var acc0 = Acc.new(); acc0.n = 0; var addit = acc0.add;")
     out.append("fn getg() { return gv; }")
     out.append("fn setg(x) { gv = x; return gv; }")
     out.append('fn peek() { var r = "leak"; try { r = main_only; } catch e { r = type(e); } return r; }')
@@ -225,7 +228,7 @@ def render(ir):
     e('    if type(r) == String { print(("ev", "fib", k, r)); } else { print(("ev", "fib", k, r != nil)); record(k, r); }')
     e("  } else if a == 8 {")
     e("    if mods[k] != nil {")
-    e('      print(("ev", "iso", k, mods[k].peek(), mods[k].builtins(), mods[k].own, mods[k].peek_class(), mods[k].peek_fn(), mods[k].shadowed()));')
+    e('      print(("ev", "iso", k, mods[k].peek(), mods[k].builtins(), mods[k].own, mods[k].peek_class(), mods[k].peek_fn(), mods[k].shadowed(), mods[k].pushit(7).len(), mods[k].addit(2), mods[k].Acc.new() != nil));')
     e('      try { mods[k].MainOnlyClass; print(("ev", "attr-leak", k)); } catch e { print(("ev", "attr2", k, type(e))); }')
     e('      try { mods[k].no_such_attribute; } catch e { print(("ev", "attr", k, type(e))); }')
     e('      try { print(("ev", "leak", own)); } catch e { print(("ev", "noleak", type(e))); }')
@@ -287,6 +290,7 @@ def model(ir, tape, faults, chooser=None):
     reads = [0] * n
     loads = [0] * n
     maingv = [7]
+    isos = [0] * n
     mods = [None] * n             # driver's record
     fibs = [None] * n             # None | generator (suspended) | "done"
 
@@ -456,8 +460,10 @@ def model(ir, tape, faults, chooser=None):
                     record(k, stop.value)
             elif a == 8:
                 if mods[k] is not None:
+                    isos[k] += 1
                     ev.append([s("iso"), num(k), cls("NameError"), tup(b(True), num(2), num(2), num(4)), num(k),
-                               cls("NameError"), cls("NameError"), tup(num(5000 + k), num(6000 + k))])
+                               cls("NameError"), cls("NameError"), tup(num(5000 + k), num(6000 + k)),
+                               num(1 + isos[k]), num(2 * isos[k]), b(True)])
                     ev.append([s("attr2"), num(k), cls("AttributeError")])
                     ev.append([s("attr"), num(k), cls("AttributeError")])
                     ev.append([s("noleak"), cls("NameError")])
